@@ -5,6 +5,7 @@ cd "$(dirname "$0")/.."
 tier=${1:-quick}; seed=${2:-0}
 for d in seeded/*/; do
   sid=$(basename $d); own=${sid%%-*}
+  [ -f $d/NEUTRALISED ] && { echo '{"note": "neutralised, see NEUTRALISED"}' > $d/caught.json; continue; }
   res="{"
   for chk in $own $(cat $d/also 2>/dev/null); do
     out=$(tools/try_seeded.sh $sid $chk $tier $seed 2>&1 | head -1)
